@@ -99,7 +99,7 @@ def run(ctx):
                        "thorough: 520 points of the 3-chunk plan); inside a site every byte (long sites: at most 24 (quick) / 64 (thorough) positions - first/last 4 bytes + sampled) x "
                        "every bit (bitflip) / 8 values (byteset) / every cut point (truncate) / 8 tails (extend); after every single mutation everything is read back. "
                        "evaluations = guarded reader calls; non-trivial = a plan point of which at least one mutation was read back; distinct by plan point")
-    ctx.assumptions += ["reads run in a worker process whose address space is limited to its idle size + 768 MiB, so that runaway allocations kill the worker "
+    ctx.assumptions += ["reads run in a worker process whose address space is limited to its idle size + 1 GiB, so that runaway allocations kill the worker "
                         "(recorded as outcome 'fatal') instead of the machine; after 2 process deaths at one plan point the rest of that point is skipped",
                         "the manifest has no integrity check by design: a field corrupted into another well-formed value is accepted (counted in notes), only crashes / misread chunks are violations",
                         "archives are built with well distributed real content addresses (archiveReader's interpolation search requires it); table files use colliding prefixes",
